@@ -1171,7 +1171,7 @@ Section Helpers.
     apply bind_ok in H4 as (u3 & s3 & H4 & H5).
     assert (Hs3 : s3 = s2 /\ forall cm, t_meta cur = Some cm -> exists m, t_meta t = Some m /\ md_hash cm = md_hash m).
     { destruct (t_meta cur) as [cm|].
-      - apply bind_ok in H4 as (m & s4 & H4 & H6). apply meta_of_ok in H4 as [Hm ->].
+      - apply bind_ok in H4 as (m & s4 & H4 & H6). apply lift_opt_ok in H4 as [Hm ->].
         apply guard_ok in H6 as [Hh ->]. split; [reflexivity|]. intros cm' [= <-]. exists m. split; [exact Hm|].
         apply beqb_true. exact Hh.
       - apply ret_ok in H4 as [_ ->]. split; [reflexivity|discriminate]. }
@@ -1215,11 +1215,13 @@ Section Helpers.
     rewrite (bind_eq _ _ _ _ _ (check_froze_and_pause_succeeds dst key cur rae s2
       (fun h1 h2 => conj (proj1 (Hfp' h1 h2)) (proj1 (proj2 (proj2 (Hfp' h1 h2))))))).
     assert (Hm : (match t_meta cur with
-                  | Some cm => m <- meta_of t ;; guard (beqb (md_hash cm) (md_hash m)) EWrongNFTOnDestination
+                  | Some cm => m <- lift_opt (t_meta t) EWrongNFTOnDestination ;; guard (beqb (md_hash cm) (md_hash m)) EWrongNFTOnDestination
                   | None => ret tt
                   end) s2 = (Ok tt, s2)).
     { destruct (t_meta cur) as [cm|]; [|reflexivity].
-      destruct (Hhash cm eq_refl) as (m & Hm & Hh). rewrite (bind_eq _ _ _ _ _ (meta_of_succeeds _ _ s2 Hm)).
+      destruct (Hhash cm eq_refl) as (m & Hm & Hh).
+      assert (Hl : lift_opt (t_meta t) EWrongNFTOnDestination s2 = (Ok m, s2)) by (rewrite Hm; reflexivity).
+      rewrite (bind_eq _ _ _ _ _ Hl).
       apply guard_true. apply beqb_true. exact Hh. }
     rewrite (bind_eq _ _ _ _ _ Hm).
     rewrite (bind_eq _ _ _ _ _ (val_of_succeeds _ _ s2 Hv)). rewrite (bind_eq _ _ _ _ _ (val_of_succeeds _ _ s2 Hcv)).
@@ -1581,10 +1583,10 @@ Section NoPanic.
     apply nopanic_bind; [apply panicfree_guard|]. intros u3 s5 _.
     apply nopanic_save_esdt_data. discriminate.
   Qed.
-  Lemma nopanic_add_nft_to_destination dst key t verify rae s :
+  (* since the F11 repair the incoming entry's metadata is checked, not dereferenced: no premise on it *)
+  Lemma nopanic_add_nft_to_destination' dst key t verify rae s :
     t_value t <> None ->
-    (forall c, tok_at E s dst (nft_key key (tok_nonce t)) = Some c ->
-               t_value c <> None /\ (t_meta c <> None -> t_meta t <> None)) ->
+    (forall c, tok_at E s dst (nft_key key (tok_nonce t)) = Some c -> t_value c <> None) ->
     nopanic (add_nft_to_destination E dst key t verify rae) s.
   Proof.
     intros Hv Hcur. unfold add_nft_to_destination. apply nopanic_bind; [apply panicfree_check_payable|].
@@ -1592,17 +1594,23 @@ Section NoPanic.
     apply nopanic_bind; [apply panicfree_get_nft_on_destination|]. intros [cur isNew] s2 H2.
     apply (get_nft_on_destination_ok E Hc) in H2 as (_ & _ & Htod & _).
     rewrite (rd_tod _ _ _ _ _ Hr1) in Htod.
-    assert (Hc' : t_value cur <> None /\ (t_meta cur <> None -> t_meta t <> None)).
-    { destruct (tod_cases _ _ _ _ _ Htod) as [(_ & -> & _)|(_ & Hta)]; [|apply Hcur; exact Hta].
-      split; [discriminate|]. intros H. exfalso. apply H. reflexivity. }
-    destruct Hc' as [Hcv Hcm].
+    assert (Hcv : t_value cur <> None).
+    { destruct (tod_cases _ _ _ _ _ Htod) as [(_ & -> & _)|(_ & Hta)]; [discriminate|apply Hcur; exact Hta]. }
     apply nopanic_bind; [apply panicfree_check_froze_and_pause|]. intros u2 s3 _.
     apply nopanic_bind.
     { destruct (t_meta cur) as [cm|]; [|apply panicfree_ret].
-      apply nopanic_bind; [apply nopanic_meta_of, Hcm; discriminate|]. intros m s4 _. apply panicfree_guard. }
+      apply nopanic_bind; [apply panicfree_lift_opt|]. intros m s4 _. apply panicfree_guard. }
     intros u3 s4 _. apply nopanic_bind; [apply nopanic_val_of; exact Hv|]. intros v s5 _.
     apply nopanic_bind; [apply nopanic_val_of; exact Hcv|]. intros cv s6 _. cbv zeta.
     apply nopanic_bind; [apply nopanic_save_nft; discriminate|]. intros b s7 _. apply panicfree_ret.
+  Qed.
+  Lemma nopanic_add_nft_to_destination dst key t verify rae s :
+    t_value t <> None ->
+    (forall c, tok_at E s dst (nft_key key (tok_nonce t)) = Some c ->
+               t_value c <> None /\ (t_meta c <> None -> t_meta t <> None)) ->
+    nopanic (add_nft_to_destination E dst key t verify rae) s.
+  Proof.
+    intros Hv Hcur. apply nopanic_add_nft_to_destination'; [exact Hv|]. intros c Hc0. apply (Hcur c Hc0).
   Qed.
 End NoPanic.
 
